@@ -387,7 +387,12 @@ fn run_warmup(session: &Session, r: &Replica) {
                 let _ = catch_unwind(AssertUnwindSafe(|| {
                     let mut o = Options::serde_xml_rs();
                     o.sort = SortBy::XmlName;
-                    (t.to_serde_struct(&Options::quick_xml_de()), t.to_serde_struct(&Options::serde_xml_rs()), t.to_serde_struct(&o))
+                    // the order of the renderings varies with the input (what was rendered first is state, too)
+                    if bytes.len() % 2 == 0 {
+                        (t.to_serde_struct(&Options::serde_xml_rs()), t.to_serde_struct(&o), t.to_serde_struct(&Options::quick_xml_de()))
+                    } else {
+                        (t.to_serde_struct(&Options::quick_xml_de()), t.to_serde_struct(&Options::serde_xml_rs()), t.to_serde_struct(&o))
+                    }
                 }));
                 Some(t)
             }
@@ -401,7 +406,15 @@ fn run_warmup(session: &Session, r: &Replica) {
 fn run_steps(session: &Session, r: &Replica, want: &Want, tree: Option<Element<String>>, from: usize, to: usize) -> (Vec<StepOut>, Option<Element<String>>) {
     let mut tree = tree;
     let mut outs = Vec::new();
-    for st in &r.steps[from..to] {
+    // `lazy-`: a caller that renders only once, at the end of the history (no intermediate renderings)
+    // `restarting-`: a caller that parses every document into a fresh tree (same variable reused in a loop)
+    let lazy = r.role.contains("lazy-");
+    let restarting = r.role.contains("restarting-");
+    for (k, st) in r.steps[from..to].iter().enumerate() {
+        let last = from + k + 1 == r.steps.len();
+        if restarting {
+            tree = None;
+        }
         let bytes = session.bytes_of(&st.input);
         // the client keeps its pre-operation clone: extend_struct consumes the tree
         let keep = tree.clone();
@@ -435,6 +448,8 @@ fn run_steps(session: &Session, r: &Replica, want: &Want, tree: Option<Element<S
         }
         if let Some(t) = &tree {
             out.has_tree = true;
+        }
+        if let (Some(t), true) = (&tree, !lazy || last) {
             let r = catch_unwind(AssertUnwindSafe(|| {
                 let mut api = String::new();
                 api_dump(t, &mut api);
